@@ -33,6 +33,13 @@ from ..worlds.mailbox import World, verdict_name
 
 ID = "C02"
 PROP_MODULES = ["WV.Props.C02"]
+# the observer layer through which the application sees the plaintexts (observer.py, eventual.py, the façades) is tied to
+# WV.Observer by the translator (tools/extract.py::extract_pyir_obs -> WV/Gen/PyIRObs.lean; agents/deepObs_integration.md):
+# part of the check as soon as the module is installed
+import os as _os
+if _os.path.exists(_os.path.join(_os.path.dirname(_os.path.abspath(__file__)), "..", "..", "lean", "WV", "Props",
+                                 "PyIRObs_C18.lean")):
+    PROP_MODULES.append("WV.Props.PyIRObs_C18")
 TRUSTED = ["SPAKE2, HKDF-SHA256, SHA-256, NaCl SecretBox: ideal interface (WV.C02.Crypto.Ideal) in Lean, real primitives in the harness",
            "JSON/hex codec of message bodies (abstract decode function in the model)",
            "Nameplate/Terminator/Code machines: only the calls the receive path makes into them (N.release assumed accepted, T.close → M.close)",
